@@ -11,9 +11,13 @@ def spec(th, seed):
              U('C10_matrix.simd-sse42', SRC, 'plain', defs=['-msse4.2'] + SIMD, args=['--only', '_f'], scale=0.3, libs=LIBS),
              # AVX level (glm's AVX paths need -mfma): code selected by GLM_ARCH_AVX_BIT, e.g. in glm_mat4_inverse
              U('C10_matrix.simd-avx2', SRC, 'plain', defs=['-mavx2', '-mfma'] + SIMD, args=['--only', '_f'], scale=0.3, libs=LIBS)]
+    units.append(U('C10_matrix.clang', SRC, 'clang', scale=0.1, libs=LIBS))
+    # aligned_mediump takes the same exactness and identity checks (aligned_lowp does not: glm divides lowp SIMD vectors with the hardware
+    # reciprocal approximation, which C03's statement explicitly allows for lowp types, so exactness cannot be demanded there)
+    units.append(U('C10_matrix.simd-avx2.mediump', SRC, 'plain', defs=['-mavx2', '-mfma', '-DGLM_FORCE_INTRINSICS', '-DC10_Q=glm::aligned_mediump'], args=['--only', '_f'], scale=0.1, libs=LIBS))
     if th:
+        units.append(U('C10_matrix.Os', SRC, 'plainOs', scale=0.1, libs=LIBS))
         units.append(U('C10_matrix.simd-sse2', SRC, 'plain', defs=['-msse2'] + SIMD, args=['--only', '_f'], scale=0.1, libs=LIBS))
-        units.append(U('C10_matrix.clang', SRC, 'clang', scale=0.1, libs=LIBS))
         units.append(U('C10_matrix.O0', SRC, 'plainO0', scale=0.03, libs=LIBS))
     # aliasing supplement (mon/alias.cpp): destination / out-parameter is one of the operands; oracle = the same call with a copy of that operand
     units.append(U('C10_alias', 'mon/alias.cpp', 'plain', defs=['-DALIAS_PROP=2']))
